@@ -7,6 +7,7 @@ import (
 	"context"
 	"encoding/json"
 	"fmt"
+	"strconv"
 	"sort"
 	"strings"
 	"sync"
@@ -473,4 +474,77 @@ func timermode(raw json.RawMessage, res *vh.Result) error {
 	return nil
 }
 
-func main() { vh.Main(map[string]vh.Mode{"replay": replay, "burst": burst, "timermode": timermode}) }
+// closeflush (C12): Writer.tla takes "drain a batch and write it" as one step of the writer under its mutex, so a
+// close with flush waits for a write in flight and then writes the rest: the transport sees queue order. The probe
+// parks the connection's writer inside Transport.Write with one publication in flight, queues more, disconnects
+// with flush from another goroutine, then releases the write.
+func closeflush(raw json.RawMessage, res *vh.Result) error {
+	var cfg struct {
+		N int `json:"n"`
+	}
+	_ = json.Unmarshal(raw, &cfg)
+	if cfg.N == 0 {
+		cfg.N = 3
+	}
+	env, err := cl.NewEnv(centrifuge.Config{LogLevel: centrifuge.LogLevelNone})
+	if err != nil {
+		return err
+	}
+	if err := env.Run(); err != nil {
+		return err
+	}
+	defer env.Close()
+	for i := 0; i < cfg.N; i++ {
+		t := cl.NewTransport(centrifuge.ProtocolTypeJSON)
+		var block atomic.Bool
+		gate := cl.NewGate()
+		t.OnWrite = func(int) {
+			if block.CompareAndSwap(true, false) {
+				gate.Arrive(10 * time.Second)
+			}
+		}
+		conn, _ := env.NewConnT("u", t)
+		conn.Connect()
+		ch := fmt.Sprintf("cf%d_%d", vh.Seed(), i)
+		if err := conn.Client.Subscribe(ch); err != nil {
+			return err
+		}
+		conn.Barrier(2 * time.Second)
+		block.Store(true)
+		_, _ = env.Node.Publish(ch, []byte("0"))
+		if !gate.WaitArrived(2 * time.Second) {
+			res.Drift("C12", "closeflush: writer did not reach Transport.Write", nil)
+			continue
+		}
+		for k := 1; k <= 3; k++ {
+			_, _ = env.Node.Publish(ch, []byte(strconv.Itoa(k)))
+		}
+		conn.Client.Disconnect(centrifuge.DisconnectForceNoReconnect) // flushes what is queued
+		time.Sleep(150 * time.Millisecond)
+		gate.Release()
+		conn.T.WaitFor(3*time.Second, func(_ []*protocol.Reply, c bool) bool { return c })
+		var got []string
+		for _, r := range conn.T.Replies() {
+			if r.Push != nil && r.Push.Channel == ch && r.Push.Pub != nil {
+				got = append(got, string(r.Push.Pub.Data))
+			}
+		}
+		replay := map[string]any{"probe": "write of publication 0 parked in Transport.Write; publications 1-3 queued; Disconnect (flush); write released", "transport_received": got}
+		want := []string{"0", "1", "2", "3"}
+		ok := len(got) == len(want)
+		for j := 0; ok && j < len(want); j++ {
+			ok = got[j] == want[j]
+		}
+		if !ok {
+			res.Violate("C12", "close-flush-order", fmt.Sprintf("close with flush while a write was in flight: the transport received publications %v, queued order is %v", got, want), replay)
+		}
+		res.Distinct("closeflush")
+		res.Sample(replay)
+		res.Done(1, 1)
+	}
+	return nil
+}
+
+func main() {
+	vh.Main(map[string]vh.Mode{"replay": replay, "burst": burst, "timermode": timermode, "closeflush": closeflush})
+}
